@@ -114,7 +114,8 @@ class Gen:
             if dt == 'varies' or dt is None:
                 self.note('varies')
                 if level < 2 and r.random() < .4:
-                    return sep.join(self.text_value() for _ in range(r.randint(2, 3)))
+                    # (now and then ten components and more: VARIES_10 sorts before VARIES_9 as a string — seed C01-i)
+                    return sep.join(self.text_value() for _ in range(r.randint(2, 3) if r.random() < .7 else r.randint(10, 14)))
                 return self.text_value()
             if dt in self.base:
                 return self.leaf(dt, mode)
@@ -313,7 +314,7 @@ class MsgGen(Gen):
         """(text, derivation, segment names) for structure `mtype` of this version"""
         r = self.rng
         ref = self.lib.MESSAGES[mtype]
-        der = self.derive(ref, 0, style)
+        der = self.derive(ref, 0, style, maxdepth=12 if style == 'all' else 3)      # an all-children instance goes as deep as the structure does (ORL_O40: 8 levels)
         names = self.flatten(der)
         if names and names[0] == 'MSH':
             names = names[1:]
